@@ -44,7 +44,7 @@ T = {
  "C11": ("Theorems C11_every_accepted_response_reserialises + C11_accepted_response_wellformed: every response the parser accepts (Content-Length, chunked or body-less) is a well-formed value -- legal names, printable trimmed values, for chunked input the C12 rewriting with a single Content-Length equal to the de-chunked body (C11_dechunked_headers_wellformed) -- and generating from it gives a message that parses to the same value with the whole output consumed. C11_request_reserialise: the same for every accepted request (any method the parser stores: UTF-8 without SP/CRLF), given a uri_ok target and re-serialised lines within the limits (the property's own quantifier).",
          "uri_ok is the premise about rhymuri (Display then parse is the identity, displayed text graphic ASCII), checked per case by the run; known findings K2, K3 are where it fails. Bodies longer than usize::MAX are excluded by an explicit premise."),
  "C12": ("Theorems C12_content_length (single value = decoded body length), C12_transfer_encoding (final coding removed, the others kept in order in one header joined by ', ', "
-         "no header when none remain), C12_no_trailer_header, C12_other_headers (originals then non-framing trailer fields, order and values kept), C12_trailer_framing_fields_ignored, "
+         "no header when none remain), C12_codings_listed (tokenising the rewritten header gives back exactly the remaining codings, in order), C12_no_trailer_header, C12_other_headers (originals then non-framing trailer fields, order and values kept), C12_trailer_framing_fields_ignored, "
          "C12_parser_stores_rewrite; list lemmas over the header-collection model (Proofs/HeaderAlgebra.v).",
          "set_header's in-place algorithm in rhymessage is modelled at specification level (first match keeps its position and name); the run compares the final header list order-sensitively."),
  "C13": ("Theorem C13_decode_inverts_every_stack: for every stack over {gzip, zlib-deflate, raw-deflate} and every spelling the crate's tokeniser maps to those names, decode_body "
